@@ -7,7 +7,7 @@
 
    - ExportGenesis emits, per (field, prefix read by its getter), one chunk: the entries under that
      prefix - or one zero-valued record per entry when the getter never looks at the stored value
-     (collector.GetAllNetFeeCollectedData);
+     (collector.GetAllNetFeeCollectedData before its repair; no getter has that shape any more);
    - InitGenesis fills prefix b from the first chunk that (i) was read from b itself and (ii) sits
      in a field that is passed to a setter writing b (direct); failing that from the first chunk
      read from ANOTHER prefix whose field is passed to a setter writing b (a derived index, e.g.
@@ -118,16 +118,24 @@ Definition why_lost (t : table) (m : string) (b : Z) : Z :=
   if ex && im then 3 else if ex then 2 else if im then 1 else 0.
 
 (* [init] above is the success path of InitGenesis.  Some setters validate their argument against
-   OTHER state and return an error (collector.SetCollectorLookupTable wants the secondary asset
-   registered as a genesis token of the app); InitGenesis reacts by returning (guard 1: everything
-   after the call is skipped too) or by dropping the item (guard 2).  Whether that happens is not
-   a function of the module's own store, so the table only says which prefixes are AT RISK: fed by
-   a setter that can fail, or by any setter called after one whose failure makes InitGenesis
-   return.  Such a prefix does not count as surviving. *)
+   OTHER state and return an error (esm.SetKillSwitchData wants the app registered in the asset
+   module); InitGenesis reacts by returning (guard 1: everything after the call is skipped too) or by
+   dropping the item (guard 2).  Whether that happens is not a function of the module's own store,
+   so the table only says which prefixes are AT RISK: fed by a setter that can fail that way, or by
+   any setter called after one whose failure makes InitGenesis return.  Such a prefix does not count
+   as surviving.
+   Guards 3 / 4 are setters whose every failing return is guarded by a condition over the imported
+   ITEM alone (collector.SetNetFeeCollectedData rejects a negative fee).  The items of a round trip
+   are the records the module's own writers stored, and the writers of that prefix enforce the same
+   condition (both writers of the net-fee prefix reject a negative result), so the success path is
+   the path taken: these rows put nothing at risk.  The behavioural run checks exactly this (the
+   prediction for such a prefix is "identical"). *)
+Definition cross_guard (r : import_row) : bool := (i_guard r =? 1) || (i_guard r =? 2).
+
 Fixpoint taint (tainted : bool) (rows : list import_row) : list (import_row * bool) :=
   match rows with
   | [] => []
-  | r :: rest => (r, tainted || negb (i_guard r =? 0)) :: taint (tainted || (i_guard r =? 1)) rest
+  | r :: rest => (r, tainted || cross_guard r) :: taint (tainted || (i_guard r =? 1)) rest
   end.
 
 Definition at_risk (t : table) (m : string) (b : Z) : bool :=
@@ -214,12 +222,15 @@ Definition survives (t : table) (m : string) (p : prefix_row) : bool :=
 
 Local Open Scope string_scope.
 
-(* Known holes on the unchanged tree: (module, prefix byte, class).  Hand-written; the table
-   theorem says that every live prefix outside this list survives. *)
+(* Known holes: (module, prefix byte, class).  Hand-written; the table theorem says that every live
+   prefix outside this list survives.
+   fixed: property=C20 PENDING class 1 (collector net fees exported as zero-valued records) - the row
+          ("collector", 8) is gone: GetAllNetFeeCollectedData unmarshals the stored value;
+   fixed: property=C20 PENDING class 12 (collector lookup table imported through the validating
+          setter, InitGenesis returning on its error) - the rows ("collector", 3 | 1 | 5 | 7) are
+          gone: InitGenesis stores the exported records with SetGenCollectorLookupTable. *)
 Definition known_holes : list (string * Z * Z) :=
-  [ (* 1: collector net fees are exported as zero-valued records *)
-    ("collector", 8, 1);
-    (* 2: auctionsV2 InitGenesis ignores the exported AuctionId / UserBiddingID (sets 0), and never
+  [ (* 2: auctionsV2 InitGenesis ignores the exported AuctionId / UserBiddingID (sets 0), and never
           restores the limit-bid id *)
     ("auctionsV2", 1, 2); ("auctionsV2", 5, 2); ("auctionsV2", 3, 2);
     (* 3: auctionsV2 bids, limit bids, protocol data and histories are not exported *)
@@ -248,10 +259,10 @@ Definition known_holes : list (string * Z * Z) :=
     ("liquidation", 18, 11); ("liquidation", 23, 11); ("liquidationsV2", 7, 11);
     ("rewards", 21, 11); ("rewards", 22, 11); ("rewards", 23, 11); ("rewards", 32, 11);
     ("rewards", 41, 11); ("rewards", 48, 11);
-    (* 12: imported through (or after) a setter that validates against other state; when it returns
-           an error InitGenesis silently returns and the rest of the module's genesis is dropped *)
-    ("collector", 3, 12); ("collector", 1, 12); ("collector", 5, 12); ("collector", 7, 12);
-    ("esm", 4, 12); ("esm", 5, 12); ("esm", 7, 12) ].
+    (* 13: esm: the kill switches are imported through SetKillSwitchData, which validates against the
+           asset module (the app must exist) and on whose error InitGenesis returns; the user deposits
+           and the cool-off data come after it *)
+    ("esm", 4, 13); ("esm", 5, 13); ("esm", 7, 13) ].
 Local Close Scope string_scope.
 
 Definition kf_C20 (n : Z) (m : string) (b : Z) : bool :=
